@@ -389,6 +389,9 @@ func init() {
 				delete(lockWatchHeld, k)
 			}
 			stackage.VerifSetHook(lockWatch)
+			if idx%16 == 11 {
+				noiseStart()
+			}
 		}
 	}
 	core.AfterCase = func(c *core.Ctx, m *core.Monitor, idx int) {
@@ -396,6 +399,12 @@ func init() {
 			return
 		}
 		stackage.VerifSetHook(nil)
+		if noise.stop != nil {
+			if b := noiseStopAndReport(); b != "" {
+				c.Violate("bystander-goroutine", fmt.Sprintf("case %d: %s", idx, b), map[string]any{"idx": idx})
+			}
+			c.Count("cases.with-bystander-goroutines")
+		}
 		for id, n := range lockWatchHeld {
 			if n > 0 {
 				c.Violate("lock-left-held", fmt.Sprintf("case %d ended with stack lock #%x still held (%d): the next locking call on that stack would never return", idx, id, n), map[string]any{"idx": idx})
